@@ -22,10 +22,26 @@ type answer struct {
 	synced  bool
 }
 
+type stubKey struct{ k, pid int }
+
 type stubTable struct {
-	mu  sync.RWMutex
-	ans map[int]answer // node index -> answer; missing = unreachable
-	nq  int            // number of queries served (evidence)
+	mu    sync.RWMutex
+	ans   map[stubKey]answer // (node, partition) -> answer; missing = unreachable
+	nq    int                // number of queries served (evidence)
+	touch func(pid int)      // tells the register which partition the coordinator is asking about
+}
+
+// "/cluster/members/vns-3" -> 3
+func pidOfPath(path string) int {
+	i := strings.LastIndex(path, "-")
+	if i < 0 {
+		return -1
+	}
+	var pid int
+	if _, err := fmt.Sscanf(path[i+1:], "%d", &pid); err != nil {
+		return -1
+	}
+	return pid
 }
 
 var (
@@ -60,10 +76,15 @@ func stubHandler(w http.ResponseWriter, req *http.Request) {
 		http.Error(w, "no instance", 500)
 		return
 	}
+	pid := pidOfPath(req.URL.Path)
 	t.mu.Lock()
-	a, present := t.ans[k]
+	a, present := t.ans[stubKey{k, pid}]
 	t.nq++
+	tf := t.touch
 	t.mu.Unlock()
+	if tf != nil && pid >= 0 {
+		tf(pid)
+	}
 	switch {
 	case !present:
 		http.Error(w, "node down", 500)
